@@ -1,6 +1,7 @@
 //! Harness binary `h_gs_a <PROP> --seed S --tier T [--count N] [--replay F]`.
 //! One module per property (`cNN.rs`, `pub fn run(args: &hcore::Args, out: &mut hcore::Out)`).
 
+mod c30;
 mod c31;
 mod c34;
 mod c36;
@@ -10,6 +11,7 @@ fn main() {
     hcore::quiet_panics();
     let mut out = hcore::Out::new();
     match args.prop.as_str() {
+        "C30" => c30::run(&args, &mut out),
         "C31" => c31::run(&args, &mut out),
         "C36" => c36::run(&args, &mut out),
         "C34" => c34::run(&args, &mut out),
